@@ -203,7 +203,9 @@ PointTerm(p) ==
     ELSE IF p.kind = "B" THEN BTerm
     ELSE ProductTerm(ProdLaw(p.kind), p.nus, p.zs, [i \in 1..Len(p.pm) |-> TDec(p.pm[i], -12)])
 
-PointValue(p) == EvalQR(PointTerm(p), PointEnv(p))
+(* A, B and the products contain square roots of the physical constants: never rational, so TLC  *)
+(* does not walk those (large) terms - they are exported and evaluated numerically               *)
+PointValue(p) == IF p.kind \in LawKinds THEN EvalQR(PointTerm(p), PointEnv(p)) ELSE RIrr
 
 ChooseDH(p) ==
     /\ stage = "build" /\ ions = <<>> /\ dh = NoDH
